@@ -288,3 +288,72 @@ Example sort_key_in_template_refuted :
   consistent After sort_key_template_expanded = false
   /\ validate Post sort_key_template_expanded = Ok [err MUnknownSortKey ["bar_kk"] "Foo" ["bar_arr"]].
 Proof. vm_compute. split; reflexivity. Qed.
+
+(* ---- non-vacuity of the completeness premises, ALL TOGETHER on the example schema: the two Section hypotheses, the freshness premises of
+        the core kinds, the premise inside complete_for for the actual expansion of a broken schema (unknown member type Zz at Foo.al),
+        the premises of completeness_any_member_site / broken_site_reported / nothing_outside_carriers (confined, broken_site), those of
+        completeness_struct_attribute (a @size attribute naming no member), and the conclusion obtained from
+        completeness_unknown_member_type with post' = that expansion ---- *)
+Definition ex_broken : list decl := with_foo false 3 (fld "al" (FName "Zz")) foo_attrs.        (* = break_member_type "Zz" at (Foo, 3) *)
+Definition ex_broken_post : list decl := with_foo true 3 (fld "al" (FName "Zz")) foo_attrs.    (* its expansion *)
+Definition ex_bad_size_attr : list decl := with_foo true 1 (fld "cnt" (FInt u8)) (Some [att "size" [AvStr "zz"]]).
+
+Ltac each_struct H := vm_compute in H; repeat (destruct H as [H|H]; [try discriminate H; try (injection H; intros; subst)|]); try contradiction.
+
+Example completeness_premises_nonvacuous :
+  (* Section hypotheses *)
+  consistent Before ex = true /\ consistent After ex_post = true
+  (* premises of the core kinds *)
+  /\ fresh_type ex "Zz" /\ break_with break_member_type "Zz" ("Foo", 3%nat) ex = Some ex_broken
+  /\ no_member_named ex "Foo" "zz" /\ fresh_member ex "zz" /\ fresh_const ex "ZZ"
+  (* the premise inside complete_for, for the expansion of the broken schema *)
+  /\ (confined (carriers ex "Foo") ex_post ex_broken_post /\ initializes_complete ex_broken_post = true)
+  (* completeness_any_member_site / broken_site_reported / nothing_outside_carriers *)
+  /\ confined ["Foo"] ex ex_broken /\ broken_site ex_broken "Foo" (Some "al") /\ nodupb (map decl_name ex_broken) = true
+  (* completeness_struct_attribute *)
+  /\ (confined (carriers ex "Foo") ex_post ex_bad_size_attr /\ initializes_complete ex_bad_size_attr = true
+      /\ exists st', In (DStruct st') ex_bad_size_attr /\ s_name st' = "Foo" /\ broken_struct_attr st')
+  (* hence, by completeness_unknown_member_type with post' = the expansion: *)
+  /\ (exists es_pre es_post, validate Pre ex_broken = Ok es_pre /\ validate Post ex_broken_post = Ok es_post
+                             /\ reported ex "Foo" (Some "al") (es_pre ++ es_post)).
+Proof.
+  assert (Hcb : consistent Before ex = true) by (vm_compute; reflexivity).
+  assert (Hca : consistent After ex_post = true) by (vm_compute; reflexivity).
+  assert (Hfresh : fresh_type ex "Zz") by (vm_compute; reflexivity).
+  assert (Hbreak : break_with break_member_type "Zz" ("Foo", 3%nat) ex = Some ex_broken) by (vm_compute; reflexivity).
+  assert (Hpost : confined (carriers ex "Foo") ex_post ex_broken_post /\ initializes_complete ex_broken_post = true).
+  { split; [|vm_compute; reflexivity].
+    unfold confined, ex_post, ex_broken_post, with_foo, example. cbn [firstn app].
+    repeat (apply Forall2_cons; [left; reflexivity|]).
+    apply Forall2_cons; [|apply Forall2_nil]. right. split; [vm_compute; auto|].
+    cbn [same_interface]. repeat split; try reflexivity. vm_compute. intros a H; exact H. }
+  split; [exact Hcb|]. split; [exact Hca|]. split; [exact Hfresh|]. split; [exact Hbreak|].
+  split; [intros st Hin Hn; each_struct Hin; try (vm_compute in Hn; discriminate Hn); vm_compute; intros HH; repeat (destruct HH as [HH|HH]; [discriminate HH|]); exact HH|].
+  split; [split; [discriminate|intros st Hin; each_struct Hin; vm_compute; intros HH; repeat (destruct HH as [HH|HH]; [discriminate HH|]); exact HH]|].
+  split; [intros n b vs a c Hin; each_struct Hin; vm_compute; intros HH; repeat (destruct HH as [HH|HH]; [discriminate HH|]); exact HH|].
+  split; [exact Hpost|].
+  split.
+  { unfold confined, ex, ex_broken, with_foo, example. cbn [firstn app].
+    repeat (apply Forall2_cons; [left; reflexivity|]).
+    apply Forall2_cons; [|apply Forall2_nil]. right. split; [vm_compute; auto|].
+    cbn [same_interface]. repeat split; try reflexivity. vm_compute. intros a H; exact H. }
+  split.
+  { apply (SiteField ex_broken (mkstruct "Foo" SdNone (replace_nth 3 (fld "al" (FName "Zz")) (foo_fields false)) foo_attrs) (fld "al" (FName "Zz")) "al").
+    - vm_compute. auto 10.
+    - vm_compute. auto 10.
+    - reflexivity.
+    - apply BrokenMemberType. vm_compute. reflexivity. }
+  split; [vm_compute; reflexivity|].
+  split.
+  { split; [|split; [vm_compute; reflexivity|]].
+    - unfold confined, ex_post, ex_bad_size_attr, with_foo, example. cbn [firstn app].
+      repeat (apply Forall2_cons; [left; reflexivity|]).
+      apply Forall2_cons; [|apply Forall2_nil]. right. split; [vm_compute; auto|].
+      cbn [same_interface]. repeat split; try reflexivity. vm_compute. intros a H; exact H.
+    - eexists. split; [unfold ex_bad_size_attr, with_foo; apply in_or_app; right; left; reflexivity|]. split; [reflexivity|].
+      apply (BrokenSizeAttr _ (att "size" [AvStr "zz"]) "zz"); [reflexivity|reflexivity|discriminate|].
+      intros i H. vm_compute in H. intuition discriminate. }
+  pose proof (completeness_unknown_member_type ex ex_post ex_broken ("Foo", 3%nat) "Zz" (Some ex_broken_post) Hcb Hca Hfresh Hbreak) as H.
+  unfold complete_for in H. apply H. intros sp' E. injection E as <-. exact Hpost.
+Qed.
+Print Assumptions completeness_premises_nonvacuous.
